@@ -542,11 +542,30 @@ class MinimizeStub:
     def minimize(self, fun, x0=None, args=(), method=None, options=None, bounds=None, **kw):
         ex = self.ex
         N = len(x0)
-        best_x = shims.SArr(list(x0), 'f')
-        best_v = fun(shims.SArr(list(x0), 'f'))
-        nfev = 1
         lb = list(bounds.lb) if bounds is not None else None
         ub = list(bounds.ub) if bounds is not None else None
+        simplex = (options or {}).get('initial_simplex') if isinstance(options, dict) else None
+        if simplex is not None:
+            # scipy: "initial_simplex: if given, overrides x0" -- the vertices (clipped into `bounds`) are the starting evaluations, x0 is NOT evaluated
+            starts = []
+            for row in list(simplex):
+                pt = []
+                for c, v in enumerate(list(row)):
+                    if lb is not None:
+                        lo, hi = lb[c if len(lb) > 1 else 0], ub[c if len(ub) > 1 else 0]
+                        v = lo if v < lo else (hi if v > hi else v)
+                    pt.append(v)
+                starts.append(pt)
+        else:
+            starts = [list(x0)]
+        best_x = shims.SArr(list(starts[0]), 'f')
+        best_v = fun(shims.SArr(list(starts[0]), 'f'))
+        nfev = 1
+        for pt in starts[1:]:
+            val = fun(shims.SArr(list(pt), 'f'))
+            nfev += 1
+            if val < best_v:
+                best_v, best_x = val, shims.SArr(list(pt), 'f')
         self.calls.append({'bounds': (lb, ub), 'x0': list(x0), 'options': options})
         for j in range(self.npoints):
             pt = []
